@@ -76,6 +76,21 @@ theorem C18_flush_emits_lastN (p : Params) (hp : p.RingOK) (ops : List (Op α)) 
   obtain ⟨_, _, h3, h4, _⟩ := hp
   exact ⟨h.process_out h3, h.process_ub h3, (process_twice h4 _).1, (process_twice h4 _).2⟩
 
+/-- **once each, oldest first — across all cycles.** For every history, the concatenation of everything the
+    callback ever received is a subsequence of the sequence of stored events: no event is replayed by two
+    flushes or twice by one, none out of its original order, none that was not stored
+    (with distinct ids: the concatenation has no duplicates). -/
+theorem C18_replays_form_a_subsequence (p : Params) (hp : p.RingOK) (ops : List (Op α)) :
+    (trace p {} ops).flatten.Sublist (storedOf ops) ∧
+    ((storedOf ops).Nodup → (trace p {} ops).flatten.Nodup) := by
+  have h : (trace p {} ops).flatten.Sublist (storedOf ops) := by
+    rw [(C18_ring_refines p hp ops).1]
+    simpa using Spec.trace_sublist ops ({} : Spec α)
+  exact ⟨h, fun hn => h.nodup hn⟩
+
+example : (trace Params.good {} ([.setCapacity 2, .store 1, .store 2, .store 3, .process, .store 4, .process,
+    .process, .store 5, .setCapacity 1, .store 6, .store 7, .process] : List (Op Nat))).flatten = [2, 3, 4, 7] := by decide
+
 /-- **one cycle, spelled out**: whatever happened before, after a flush followed by storing `xs`, the next
     flush replays the last `min(cap, |xs|)` of `xs` -/
 theorem C18_cycle_after_flush (p : Params) (hp : p.RingOK) (pre : List (Op α)) (xs : List α) :
